@@ -12,7 +12,8 @@ import (
 // The key scenario is a scripted history executed in every run: object keys
 // made of characters that are rewritten somewhere between the S3 client and the
 // storage behind the server ('+', space, '%', literal percent escapes, '?', '#',
-// '&', ';', '=', non-ASCII, leading / trailing / double spaces), among them
+// '&', ';', '=', non-ASCII, leading / trailing / double spaces, "." / ".." path
+// segments, "//"), among them
 // PAIRS of keys that become the same key under a wrong or a repeated
 // unescaping ("a+b" / "a b", "p%20q" / "p q", "c%2Bd" / "c+d", "x%2Fy" /
 // "x/y"). All keys hold objects with different bodies of different sizes at
@@ -54,6 +55,8 @@ var c38KeyList = []c38Key{
 	{"trail ", "key-with-outer-or-double-space"},
 	{"dbl  space", "key-with-outer-or-double-space"},
 	{"ünï/日本 語+", "key-with-non-ascii"},
+	{"dot/./seg/../x", "key-with-dot-segments"},
+	{"dbl//slash", "key-with-double-slash"},
 }
 
 func runC38Keys(ctx context.Context, r *vkit.Run, st *c38Stacks, masks maskSet) (*c38History, c38Witness) {
